@@ -506,6 +506,16 @@ Proof.
   cbn [close_ok rfc_profile aiohttp_profile]. unfold rfc_close_ok, close_code_bad. cbn [ws_mem ALLOWED_CLOSE_CODES]. lia.
 Qed.
 
+(* the generated comparisons are exactly the recorded deviations *)
+Lemma aiohttp_is_known_quirks :
+  (forall mx n, wire_too_big aiohttp_profile mx n = wire_too_big known_quirks_profile mx n) /\
+  (forall mx n, msg_too_big aiohttp_profile mx n = msg_too_big known_quirks_profile mx n) /\
+  (forall code, close_ok aiohttp_profile code = close_ok known_quirks_profile code).
+Proof.
+  repeat split; intros; cbn [wire_too_big msg_too_big close_ok aiohttp_profile known_quirks_profile]; try reflexivity.
+  unfold rfc_close_ok, close_code_bad. cbn [ws_mem ALLOWED_CLOSE_CODES]. lia.
+Qed.
+
 (* instance used by the refutation witnesses and examples of Props/C12.v *)
 Definition agrees_with_spec (p : profile) (c : cfg) (segs : list bytes) : Prop :=
   let r := feed_all toycx toy_decomp c (Live (init_state toycx toy0)) segs in
